@@ -61,6 +61,9 @@ def canon_model(interp, v, depth=0):
     if isinstance(v, BBytes):
         return v.to_host()
     from .extern import PStr, SymBytes
+    from . import files as _files
+    if isinstance(v, _files.BytesIOModel):
+        return ('BytesIO', BBytes(v.nbytes, v.bit).to_host())
     if isinstance(v, PStr):
         b = [v.view.bit(i) for i in range(v.view.n)]
         return ('0b' + ''.join('1' if x else '0' for x in b)) if b else ''
@@ -122,6 +125,9 @@ def canon_real(v):
         return ('gen', [canon_real(x) for x in v])
     if type(v) is object:
         return ('obj', 'object')
+    import io
+    if isinstance(v, io.BytesIO):
+        return ('BytesIO', v.getvalue())
     return v
 
 
